@@ -198,7 +198,61 @@ def clause_learn(cases, ctx: Ctx):
     return out
 
 
-CLAUSES = {"dqn": clause_dqn, "sac": clause_sac, "onpolicy": clause_onpolicy, "learn": clause_learn}
+def clause_learn_targets(cases, ctx: Ctx):
+    """The Polyak schedule INSIDE learn(): a user-defined iteration callback reads the algorithm state that iteration() hands to
+    callbacks (before its per-iteration hook) and reports the online and target critics to the host.  Between two consecutive
+    reports the target must have moved by exactly one step theta' <- tau*theta + (1-tau)*theta'.   case: {num_envs, num_steps, tau, key}"""
+    from lerax.callback import AbstractIterationCallback
+    from lerax.callback.base_callback import EmptyCallbackState
+
+    out = []
+    for ci, c in enumerate(cases):
+        E, T, tau = c["num_envs"], c["num_steps"], c["tau"]
+        env = learnx.tiny_env("box")
+        pol = learnx.make_policy("sac", env, c["key"], width_size=8, depth=1)
+        algo = learnx.make_algo("SAC", E, T, tau=tau, policy_frequency=2, buffer_size=64, learning_starts=3, batch_size=2)
+        recs = []
+
+        def host(it, q1, t1, q2, t2):
+            recs.append((int(it), [np.asarray(x, dtype=np.float64) for x in q1], [np.asarray(x, dtype=np.float64) for x in t1],
+                         [np.asarray(x, dtype=np.float64) for x in q2], [np.asarray(x, dtype=np.float64) for x in t2]))
+
+        class Probe(AbstractIterationCallback):
+            def reset(self, cctx, *, key):
+                return EmptyCallbackState()
+
+            def on_iteration(self, cctx, *, key):
+                st = cctx.locals.get("state") if isinstance(cctx.locals, dict) else None
+                if st is None or not all(hasattr(st, f) for f in ("qf1", "qf1_target", "qf2", "qf2_target", "iteration_count")):
+                    return cctx.state  # the algorithm state is not exposed this way (any more): nothing to judge here
+                lv = lambda q: jax.tree.leaves(eqx.filter(q, eqx.is_inexact_array))
+                jax.debug.callback(host, st.iteration_count, lv(st.qf1), lv(st.qf1_target), lv(st.qf2), lv(st.qf2_target), ordered=True)
+                return cctx.state
+
+        n_it = 5
+        out_pol = algo.learn(env, pol, n_it * E * T, key=jr.key(c["key"] + 1), callback=Probe())
+        jax.block_until_ready(jax.tree.leaves(eqx.filter(out_pol, eqx.is_array)))
+        jax.effects_barrier()
+        recs.sort(key=lambda r: r[0])
+        desc = f"SAC.learn num_envs={E} num_steps={T} tau={tau}"
+        if len(recs) != n_it:
+            ctx.notes["learn_targets_not_observable"] = f"{len(recs)} callback reports for {n_it} iterations"
+            continue
+        for a, b in zip(recs[:-1], recs[1:]):
+            for nm, qi, ti in (("qf1_target", 1, 2), ("qf2_target", 3, 4)):
+                want = polyak_np(a[qi], a[ti], tau)
+                if not all(np.allclose(g, w, rtol=2e-5, atol=2e-6) for g, w in zip(b[ti], want)):
+                    twice = polyak_np(a[qi], want, tau)
+                    kind = "/applied-twice" if all(np.allclose(g, w, rtol=2e-5, atol=2e-6) for g, w in zip(b[ti], twice)) else ""
+                    out.append((ci, f"C10/learn/sac/polyak{kind}", f"{desc}: between the callback reports of iterations {a[0]} and {b[0]} {nm} did not move by exactly one step "
+                                                                   f"theta' <- tau*theta + (1-tau)*theta' (max abs deviation {max(float(np.abs(g - w).max()) for g, w in zip(b[ti], want)):.3g})"))
+                    break
+            ctx.guard("learn-target-steps")
+        ctx.transitions += n_it
+    return out
+
+
+CLAUSES = {"dqn": clause_dqn, "sac": clause_sac, "onpolicy": clause_onpolicy, "learn": clause_learn, "learn_targets": clause_learn_targets}
 
 
 def explore(ctx: Ctx):
@@ -244,6 +298,7 @@ def explore(ctx: Ctx):
             if tot % (E * T):
                 ctx.nontriv(("learn", a, E, T, tot))
     ctx.run_parallel("learn", learn, workers=8, threads=2)
+    ctx.run("learn_targets", [dict(num_envs=E, num_steps=T, tau=tau, key=key) for (E, T) in (((1, 1), (2, 2)) if not thorough else ((1, 1), (2, 1), (1, 2), (2, 3))) for tau in ((0.5,) if not thorough else (0.5, 0.005))])
     ctx.traces = len(dqn) + len(sac) + len(onp) + len(learn)
     ctx.require("dqn-sync-points", "dqn-lag-points", "dqn-online-changed", "sac-actor-updates", "sac-actor-skips", "sac-alpha-updates",
                 "learn-zero-iterations", "learn-floor-cases")
